@@ -43,7 +43,7 @@ func (c12) Gen(rt *rapid.T, thorough bool) any {
 	// level settings of references must not matter for raw writes
 	for i := range s.Refs {
 		if rapid.Bool().Draw(rt, "reflevel") {
-			s.Refs[i].Level = rapid.SampledFrom([]string{"", "ERROR", "TRACE~DEBUG", "FATAL", "info~warn"}).Draw(rt, "reflevel_v")
+			s.Refs[i].Level = rapid.SampledFrom([]string{"", "ERROR", "TRACE~DEBUG", "FATAL", "info~warn", "INFO~INFO", "ERROR~WARN", "NONE~NONE", "TOP"}).Draw(rt, "reflevel_v")
 		}
 	}
 	s.Reuse = true
@@ -52,17 +52,31 @@ func (c12) Gen(rt *rapid.T, thorough bool) any {
 	if per > 10 {
 		per = 10
 	}
+	if s.Kind == "AsyncLogger" && s.Policy == "Block" && rapid.IntRange(0, 2).Draw(rt, "overflow12") == 0 {
+		// Block keeps every item: more writes than the buffer holds are fine, the writers just
+		// wait - and what they wrote must still be the bytes of the call
+		np = rapid.IntRange(5, 8).Draw(rt, "writers_overflow")
+		per = 26
+		s.Overflow = true
+	}
 	for p := 0; p < np; p++ {
 		n := rapid.IntRange(1, per).Draw(rt, "nwrites")
 		var ops []AOp
 		for i := 0; i < n; i++ {
-			ops = append(ops, AOp{Raw: true, Size: rapid.SampledFrom([]int{-1, -2, -3, 0, 1, 40, 40, 700, 65536}).Draw(rt, "size")})
+			size := rapid.SampledFrom([]int{-1, -2, -3, 0, 1, 40, 40, 700, 65536}).Draw(rt, "size")
+			if s.Overflow && (size > 1000 || size == -1) {
+				size = 40
+			}
+			ops = append(ops, AOp{Raw: true, Size: size})
 		}
 		s.Producers = append(s.Producers, ops)
 	}
 	s.Gate = rapid.SampledFrom([]int{0, 1, 1}).Draw(rt, "gate")
 	if s.Kind != "AsyncLogger" {
 		s.Gate = 0
+	}
+	if s.Overflow {
+		s.Gate = 1
 	}
 	s.Slow = rapid.SampledFrom([]int{0, 0, 2}).Draw(rt, "slow")
 	if rapid.Bool().Draw(rt, "starve") {
@@ -240,7 +254,7 @@ func runC12Writers(x *Exec, s *AsyncScn, sys *asyncSys, write func([]byte) (int,
 	}
 	for _, t := range x.Sim.Tasks() {
 		if !t.Daemon && t.State != 5 {
-			o.violate("writer-stuck", "C12/writer-stuck", "writer %s blocked at %s although the buffer cannot be full (%d writes in total)", t.Name, t.Site, totalOps(s))
+			o.violate("writer-stuck", "C12/writer-stuck", "writer %s blocked at %s although the worker was let through whenever the run was stuck (%d writes in total)", t.Name, t.Site, totalOps(s))
 			return
 		}
 	}
